@@ -573,3 +573,7 @@ for _p, _t, _f in (("C05", "TestC05", "FuzzC05"), ("C13", "TestC13", "FuzzC13"),
                    ("C08", "TestC08", "FuzzC08")):
     PROPS[_p]["parts"].append({"name": "native-fuzz", "mode": "fuzz", "test": _t, "fuzz": _f,
                                "thorough": {"fuzztime": "120s", "timeout": 1200}})
+PROPS["C07"]["rule"] += (" Besides the expiring items the histories hold a rule r2 that is a deleteWith dependent of an expiring item "
+                         "(usually of the expiring rule r1, for the same events) and a rule that never expires; a failing ProcessEvent is "
+                         "a violation whenever the model has a rule that must be dispatched.")
+PROPS["C01"]["rule"] += " Rule ids are also overwritten by scheduled rules (which events never dispatch) and by facts whose 'rule' is not a rule body."
